@@ -1,6 +1,6 @@
 (* C11 -- Macro invocation equals substitution (table algebra full, substitution partial).  Property theorems only. *)
 From Rimu Require Import Base Unicode Regex RegexAnalysis RegexParse Str Types Tables Guards State Inline Block
-  Frame FrameBlock FrameInst OptionsLemmas MiscLemmas MoreLemmas Plain TableFacts.
+  Frame FrameBlock FrameInst OptionsLemmas MiscLemmas MoreLemmas Plain TableFacts MatchExact MacroSubst.
 
 (* setValue, when not skipped by the safe mode, is exactly the table function setValue_table and touches nothing protected *)
 Theorem C11_setValue_spec : forall name value s,
@@ -52,4 +52,37 @@ Example C11_ex :
   match api_render 40 ($"{m}='$1 and $2:dflt$'" ++ [10] ++ $"{m?}='other'" ++ [10] ++ $"{m|x} {u}") (mkOpts PyNone PyNone PyNone true) S0 with
   | Ok (html, s) => str_eqb html $"<p>x and dflt {u}</p>" && Nat.eqb (length (s_log s)) 1
   | _ => false end = true.
+Proof. vm_compute. reflexivity. Qed.
+
+(* INVOCATION = SUBSTITUTION, the simple form: in text with no other brace or backslash (and no U+0002), the invocation {name}
+   of a defined macro whose value is itself free of them is replaced by the value and nothing else changes -- for every
+   prefix, suffix, name over the generated name alphabet, value, and nested spans renderer *)
+Theorem C11_simple_invocation : forall sr s pre name post value silent,
+  quiet pre -> quiet post -> quiet value -> name_ok name -> getValue s name = Some value ->
+  macros_render sr s (pre ++ 123 :: name ++ 125 :: post) silent = iret (pre ++ value ++ post).
+Proof. exact simple_invocation. Qed.
+Print Assumptions C11_simple_invocation.
+
+(* ... so the inline entry point of every block renders the invocation exactly as the text with the value written in its place,
+   for every fuel and every expansion with macros switched on *)
+Theorem C11_invocation_equals_substitution : forall n s pre name post value e,
+  quiet pre -> quiet post -> quiet value -> name_ok name -> getValue s name = Some value -> truthy (e_macros e) = true ->
+  replaceInline_top n s (Some (pre ++ 123 :: name ++ 125 :: post)) e =
+  replaceInline_top n s (Some (pre ++ value ++ post)) e.
+Proof. exact invocation_equals_substitution. Qed.
+Print Assumptions C11_invocation_equals_substitution.
+
+(* the match that re.sub hands to the callback on an invocation is the whole invocation with the name in group 1:
+   every derivation of the simple-invocation pattern on {name}... ends in the same state (exact semantics) *)
+Theorem C11_invocation_match : forall i p name post, name_ok name ->
+  exists m, match_at re_macros_render_1 i p (123 :: name ++ 125 :: post) = Some m /\
+    m_start m = i /\ m_end m = i + lenN (123 :: name ++ [125]) /\
+    m_groups m = [Some (123 :: name ++ [125]); Some name; Some []].
+Proof. exact simple_match. Qed.
+Print Assumptions C11_invocation_match.
+
+(* the hypotheses are met by ordinary text, and the model computes the same on an instance *)
+Example C11_ex_simple :
+  let s := mkIenv 0 [] [] [] [($"who", $"the world")] in
+  macros_render (fun t => iret t) s $"Hello {who}, and goodbye." false = iret $"Hello the world, and goodbye.".
 Proof. vm_compute. reflexivity. Qed.
